@@ -203,6 +203,13 @@ Waited ==
             ELSE {})
   /\ UNCHANGED <<rootrec, pending, root, sroot, go, waiting>> /\ l' = l + 1
 
+\* a burst of isready commands: every one is answered by a line that is exactly `readyok`
+Burst ==
+  /\ IsEv("burst")
+  /\ Report(F(Rec[l].clean = Rec[l].sent /\ Rec[l].nglued = 0, "C14", "isready was not answered with a readyok line of its own",
+              [sent |-> Rec[l].sent, clean |-> Rec[l].clean, glued_into_other_lines |-> Rec[l].glued]))
+  /\ UNCHANGED <<rootrec, pending, root, sroot, go, waiting>> /\ l' = l + 1
+
 Exit ==
   /\ IsEv("exit")
   /\ Report(F(Rec[l].clean, "C14", "the process did not exit cleanly on quit", [rc |-> Rec[l].rc, hung |-> Rec[l].hung]))
@@ -214,7 +221,7 @@ End ==
             \cup F(pending = 0, "C14", "an accepted go was never answered with a bestmove", [pending |-> pending]))
   /\ UNCHANGED <<rootrec, pending, root, sroot, go, waiting>> /\ l' = l + 1
 
-Next == Session \/ Cmd \/ Best \/ Pv \/ Depth \/ Score \/ Waited \/ Exit \/ End
+Next == Session \/ Cmd \/ Best \/ Pv \/ Depth \/ Score \/ Waited \/ Burst \/ Exit \/ End
 Spec == Init /\ [][Next]_vars
 
 Accepted ==
